@@ -148,11 +148,12 @@ STARTS = [(), (("gen", 0, 0),), (("gen", 0, 0), ("gen_counter", 1, 1)), (("gen",
 
 def run_config(ctx, config):
     W = World(ctx, config); rng = ctx.rng
-    depth = 3 if ctx.quick else 4
     starts = STARTS[:2] if ctx.quick else STARTS
     nh = 0
-    # exhaustive enumeration, partitioned over the shards by the first two symbols
+    # exhaustive enumeration, partitioned over the shards by the first two symbols (depth 4 = 34^4 histories per start: thorough tier,
+    # first build, first two start states; depth 3 everywhere else)
     for si, start in enumerate(starts):
+        depth = 4 if (not ctx.quick and config == ctx.configs[0] and si < 2) else 3
         firsts = list(itertools.product(range(len(ALPHA)), repeat=2))
         for (a, b) in ctx.mine(firsts):
             for rest in itertools.product(range(len(ALPHA)), repeat=depth - 2):
@@ -164,7 +165,7 @@ def run_config(ctx, config):
                     hist.append(ALPHA[x])
                     if not step(W, objs, ALPHA[x], hist): break
                 nh += 1
-    ctx.count("exhaustive_histories_depth%d" % depth, nh)
+    ctx.count("exhaustive_histories_depth3_or_4", nh)
     # long random histories
     for it in range(ctx.n(200, 20000)):
         objs = [Obj(), Obj()]; hist = []
